@@ -53,7 +53,7 @@ def run_case(ctx, kind_, idx):
     rng = ctx.rng(kind_, idx)
     cid = ctx.case_id(kind_, idx)
     x, y, meta = R.gen_series(rng, 2, 60, ties_share=0.2, long_share=R.LONG_SHARE, real_valued=kind_ == "huge",
-                              force_m=int(rng.integers(66000, 90001)) if kind_ == "huge" else None)
+                              force_m=gen.huge_size(rng) if kind_ == "huge" else None)
     if abs(x[0]) < 1e-12 and rng.integers(0, 5):
         x = x + float(rng.choice([5.0, -3.0, 100.0, float(rng.normal(0, 20))]))
     which = ["trend", "trend", "trend_additive", "shift_scale", "normalize"][int(rng.integers(0, 5))]
